@@ -221,10 +221,12 @@ func runValues(out string) {
 func runStrings(out, tier string, rng *rand.Rand) {
 	w := vio.Create(out)
 	defer w.Close()
-	positions := []string{"msg", "key", "value", "with", "group"}
+	// group2: the string names an OUTER group of a chain of groups; sgroup: it names a group attribute of the record;
+	// gkey: it is a key inside an open group
+	positions := []string{"msg", "key", "value", "with", "group", "group2", "sgroup", "gkey"}
 	n := 0
 	emit := func(s string, pos string) {
-		if pos == "group" && s == "" {
+		if (pos == "group" || pos == "group2" || pos == "sgroup") && s == "" {
 			pos = "value"
 		}
 		c := &capture{}
@@ -240,6 +242,12 @@ func runStrings(out, tier string, rng *rand.Rand) {
 			l.With("k", s).Info("m")
 		case "group":
 			l.WithGroup(s).Info("m", "k", "v")
+		case "group2":
+			l.WithGroup(s).WithGroup("z").With("k", "v").Info("m")
+		case "sgroup":
+			l.Info("m", slog.Group(s, slog.String("k", "v")))
+		case "gkey":
+			l.WithGroup("z").Info("m", s, "v")
 		}
 		t, one, head := tail(c, "INFO")
 		w.Put(map[string]any{"mode": "strings", "in": vio.Ints(s), "pos": pos, "tail": t, "onewrite": one, "head": head})
@@ -257,13 +265,13 @@ func runStrings(out, tier string, rng *rand.Rand) {
 	if tier == "thorough" {
 		for a := 0; a < 256; a++ {
 			for b := 0; b < 256; b++ {
-				emit(string([]byte{byte(a), byte(b)}), positions[(a+b)%5])
+				emit(string([]byte{byte(a), byte(b)}), positions[(a+b)%len(positions)])
 			}
 		}
 	} else {
 		for _, a := range reps {
 			for b := 0; b < 256; b++ {
-				emit(string([]byte{a, byte(b)}), positions[(int(a)+b)%5])
+				emit(string([]byte{a, byte(b)}), positions[(int(a)+b)%len(positions)])
 			}
 		}
 	}
@@ -287,9 +295,9 @@ func runStrings(out, tier string, rng *rand.Rand) {
 		}
 	}
 	for i, r := range cps {
-		emit(string(r), positions[i%5])
+		emit(string(r), positions[i%len(positions)])
 		if i%89 == 0 {
-			emit("a"+string(r)+"\xff", positions[(i/89)%5])
+			emit("a"+string(r)+"\xff", positions[(i/89)%len(positions)])
 		}
 	}
 	for _, s := range []string{"a b", "a=b", "a\"b", "a\\b", "\\", "\\n", "x\ny=z", " ", "=", "\"", "a.b", "\xe2\x80", "\xc0\xaf", "k=v k2=v2", "tab\there", " ", "a b", "　x"} {
